@@ -301,7 +301,9 @@ class Executor(Generic[TContext]):
         self.pending_incremental_futures = set()
         self.background_futures = set()
         self.async_work_finished_hook_task = None
-        self._relevant_sub_fields: dict[tuple, CollectedFields] = {}
+        self._relevant_sub_fields: dict[
+            tuple, tuple[tuple[FieldDetails, ...], CollectedFields]
+        ] = {}
         self._stream_usages: RefMap[FieldDetailsList, StreamUsage] = RefMap()
 
     @classmethod
@@ -1825,8 +1827,8 @@ class Executor(Generic[TContext]):
             if len(field_details_list) == 1  # optimize most frequent case
             else (return_type, *map(id, field_details_list))
         )
-        collected_fields: CollectedFields | None = relevant_sub_fields.get(key)
-        if collected_fields is None:
+        cached = relevant_sub_fields.get(key)
+        if cached is None:
             collected_fields = collect_subfields(
                 self.schema,
                 self.fragments,
@@ -1836,8 +1838,11 @@ class Executor(Generic[TContext]):
                 field_details_list,
                 self.hide_suggestions,
             )
-            relevant_sub_fields[key] = collected_fields
-        return collected_fields
+            # Keep the field details referenced by the entry, so that their ids
+            # cannot be reused by other objects for as long as the entry exists.
+            relevant_sub_fields[key] = (tuple(field_details_list), collected_fields)
+            return collected_fields
+        return cached[1]
 
 
 def to_nodes(field_details_list: FieldDetailsList) -> list[FieldNode]:
